@@ -38,6 +38,9 @@ def run(ctx):
     c07_2(ctx, b1, b2)
     c07_blockrefs(ctx)
     c07_3(ctx, b2)
+    # "identical ... cost, the native path never costing more": both paths meter CLVM and size cost the same way (shared with C04.4)
+    from . import c04
+    c04.c04_4(ctx, R="C07.1", eps_only=("run_block_generator", "run_block_generator2"))
 
 
 def _spend_guard(b):
